@@ -218,6 +218,21 @@ class PartialOps:
             others = [o for o in outs if not (o[0] == "return" and isinstance(o[2], bool))]
             if trues and not others and all(e.get("$converted") and not e.get("$handlers") for _o, e in trues):
                 out.add(fn.name)
+        # a predicate that only hands its argument to a recogniser is one (`def _int_like(self, obj): return int_like(obj)`)
+        grew = True
+        while grew:
+            grew = False
+            for fn in self.repo.functions.values():
+                params = [a.arg for a in fn.node.args.args if a.arg not in ("self", "cls")]
+                if len(params) != 1 or fn.parent is not None or fn.name in out:
+                    continue
+                body = [b for b in fn.node.body if not (isinstance(b, ast.Expr) and isinstance(b.value, ast.Constant))]
+                if len(body) == 1 and isinstance(body[0], ast.Return) and isinstance(body[0].value, ast.Call):
+                    c = body[0].value
+                    callee = c.func.id if isinstance(c.func, ast.Name) else (c.func.attr if isinstance(c.func, ast.Attribute) and path_of(c.func.value) in ("self", "cls") else None)
+                    if callee in out and callee != fn.name and len(c.args) == 1 and not c.keywords and path_of(c.args[0]) == params[0]:
+                        out.add(fn.name)
+                        grew = True
         return out
 
     # ------------------------------------------------------ must-fact events
@@ -227,6 +242,10 @@ class PartialOps:
         p = path_of(test)
         if p is not None and branch:
             ev.append("nonempty@" + p)
+        if (branch and isinstance(test, ast.Call) and isinstance(test.func, ast.Attribute) and test.func.attr == "group" and len(test.args) == 1
+                and not test.keywords and isinstance(test.args[0], ast.Constant) and isinstance(test.args[0].value, str) and isinstance(test.func.value, ast.Name)):
+            # `if m.group("G"):` - the group took part in the match (and matched something)
+            ev.append(f"group:{test.func.value.id}:{test.args[0].value}")
         if isinstance(test, ast.Compare) and len(test.ops) == 1:
             left, op, right = test.left, test.ops[0], test.comparators[0]
             # len(X) == c / len(X) >= c / len(X) > c
@@ -988,7 +1007,64 @@ class PartialOps:
                 else:
                     out.append(PSite(fn, node, "TABLE", ["KeyError"], note=f"{why} can match {sorted(words - keys)}, which are not keys"))
                 return
+        # key is `M.group("G")` itself: G has a small finite language inside the keys, and G took part in the match -
+        # it is a mandatory part of the pattern, or of a group H that a dominating `if M.group("H"):` found matched
+        if (isinstance(key, ast.Call) and isinstance(key.func, ast.Attribute) and key.func.attr == "group" and len(key.args) == 1 and not key.keywords
+                and isinstance(key.args[0], ast.Constant) and isinstance(key.args[0].value, str) and isinstance(key.func.value, ast.Name)):
+            got = self._direct_group(fn, key.func.value.id, key.args[0].value, facts)
+            if got is not None:
+                words, why = got
+                if words <= keys:
+                    out.append(PSite(fn, node, "TABLE", [], discharged=f"the key is {why}, which matches only {sorted(words)}: all keys"))
+                else:
+                    out.append(PSite(fn, node, "TABLE", ["KeyError"], note=f"{why} can match {sorted(words - keys)}, which are not keys"))
+                return
         out.append(PSite(fn, node, "TABLE", ["KeyError"], note="key not shown to be present"))
+
+    def _direct_group(self, fn: FuncInfo, mname: str, group: str, facts: FrozenSet[str]) -> Optional[Tuple[Set[str], str]]:
+        from . import regexast
+        from .consteval import RegexConst
+
+        m = self._single_def(fn, mname)
+        if not (isinstance(m, ast.Call) and isinstance(m.func, ast.Attribute) and m.func.attr in ("match", "fullmatch", "search")):
+            return None
+        try:
+            pat = self._fold_any(fn, m.func.value)
+        except NotConst:
+            return None
+        if not isinstance(pat, RegexConst) or pat.flags & re.IGNORECASE:
+            return None
+        try:
+            tree = regexast.parse(pat.pattern, pat.flags)
+            gid = regexast.group_index(tree, group)
+            seq = regexast.named_group(pat.pattern, group, pat.flags)
+        except AnalysisError:
+            return None
+        if gid is None:
+            return None
+        words = regexast.finite_language(seq)
+        if words is None:
+            return None
+        took_part = gid in regexast.mandatory_groups(tree)
+        if not took_part:
+            for f in facts:
+                if f.startswith(f"group:{mname}:"):
+                    try:
+                        outer = regexast.named_group(pat.pattern, f.split(":", 2)[2], pat.flags)
+                    except AnalysisError:
+                        continue
+                    if gid in regexast.mandatory_groups(outer):
+                        took_part = True
+                        break
+        if not took_part:
+            return None
+        return set(words), f"group {group!r} of {ast.unparse(m.func.value)}"
+
+    def _fold_any(self, fn: FuncInfo, e: ast.expr):  # type: ignore[no-untyped-def]
+        scope_locals = {}
+        if fn.cls is not None:
+            scope_locals["self"] = Instance(fn.cls)
+        return self.folder.eval(e, Scope(self.folder, fn.module, fn.cls, scope_locals))
 
     def _single_def(self, fn: FuncInfo, name: str) -> Optional[ast.expr]:
         stores = [n for n in ast.walk(fn.node) if isinstance(n, ast.Name) and n.id == name and isinstance(n.ctx, (ast.Store, ast.Del))]
